@@ -126,3 +126,45 @@ spec_fn(
     py=lambda M, x: int(np.count_nonzero(~np.asarray(M, dtype=bool)[:x])),
 )
 macro("total1", ["M"], "cnt1(M, M.shape[0])", py=lambda M: int(np.count_nonzero(~np.asarray(M, dtype=bool))))
+
+# ---- near: "some unmasked pixel strictly before (y,x) (row-major) has (a,b) inside its (2hy+1)x(2hx+1) footprint"
+def _near_py(M, hy, hx, a, b, y, x):
+    H, W = M.shape
+    for p in range(min(y * W + x, H * W)):
+        yp, xp = divmod(p, W)
+        if not M[yp, xp] and abs(a - yp) <= hy and abs(b - xp) <= hx:
+            return True
+    return False
+
+
+_WITHIN = "(a - hy <= {y} and {y} <= a + hy and b - hx <= {x} and {x} <= b + hx)"
+spec_fn(
+    "near", params=[("M", "bool[2]"), ("hy", "$int"), ("hx", "$int"), ("a", "int"), ("b", "int"), ("y", "int"), ("x", "int")],
+    ret="bool", let={"H": "M.shape[0]", "W": "M.shape[1]"},
+    axioms=[
+        "forall(0, H, lambda a: forall(0, W, lambda b: not near(M, hy, hx, a, b, 0, 0), pat=near(M, hy, hx, a, b, 0, 0)))",
+        "forall(0, H, lambda a: forall(0, W, lambda b: forall(0, H, lambda y: forall(0, W, lambda x:"
+        " near(M, hy, hx, a, b, y, x + 1) == (near(M, hy, hx, a, b, y, x) or (not M[y, x] and " + _WITHIN.format(y="y", x="x") + ")),"
+        " pat=near(M, hy, hx, a, b, y, x + 1)))))",
+        "forall(0, H, lambda a: forall(0, W, lambda b: forall(0, H, lambda y:"
+        " near(M, hy, hx, a, b, y + 1, 0) == near(M, hy, hx, a, b, y, W),"
+        " pat=(near(M, hy, hx, a, b, y, W), near(M, hy, hx, a, b, y + 1, 0)))))",
+    ],
+    lemmas=[
+        dict(name="row", induct="n", lo=0, hi="W", export=False,
+             stmt="forall(0, H, lambda a: forall(0, W, lambda b: forall(0, H, lambda y:"
+                  " near(M, hy, hx, a, b, y, n) == (near(M, hy, hx, a, b, y, 0) or exists(0, n, lambda xp:"
+                  " not M[y, xp] and " + _WITHIN.format(y="y", x="xp") + ")), pat=near(M, hy, hx, a, b, y, n))))"),
+        dict(name="rows", induct="n", lo=0, hi="H", export=False,
+             stmt="forall(0, H, lambda a: forall(0, W, lambda b:"
+                  " near(M, hy, hx, a, b, n, 0) == exists(0, n, lambda yp: exists(0, W, lambda xp:"
+                  " not M[yp, xp] and " + _WITHIN.format(y="yp", x="xp") + ")), pat=near(M, hy, hx, a, b, n, 0)))"),
+        # the declarative reading used by the property: near(.., H, 0) <=> some unmasked pixel has (a,b) in its footprint
+        dict(name="decl", noinduct=True,
+             stmt="forall(0, H, lambda a: forall(0, W, lambda b:"
+                  " near(M, hy, hx, a, b, H, 0) == exists(0, H, lambda yp: exists(0, W, lambda xp:"
+                  " not M[yp, xp] and " + _WITHIN.format(y="yp", x="xp") + ")), pat=near(M, hy, hx, a, b, H, 0)))"),
+    ],
+    py=_near_py,
+    doc="scan-order accumulation of the blurring-footprint relation (C10)",
+)
